@@ -17,11 +17,10 @@ Hypothesis re_total : forall p s, exists r, re_search p s = Ok r.
 
 (* every keyword handler stream ends Done or Err (YPE _), for all inputs *)
 Theorem kw_handler_clean inv kw params v c :
-  kw_params_ok params = true ->
   clean_stop (snd (ek_kw_handler lit re_search nstr vstr inv kw params v c))
   /\ Forall (fun x => is_coords x = true) (fst (ek_kw_handler lit re_search nstr vstr inv kw params v c)).
 Proof.
-  intros Hp. destruct (ek_kw_handler_res lit re_search nstr vstr lit_total inv kw params v c Hp) as [Hg Hf].
+  destruct (ek_kw_handler_res lit re_search nstr vstr lit_total inv kw params v c) as [Hg Hf].
   split; [|exact Hf].
   apply clean_of; [apply okstop_clean; exact Hg | apply ek_kw_handler_pure].
 Qed.
